@@ -321,9 +321,10 @@ class LoopSpec:
     determine one; `decreases(v)` optional variant (int, >= 0, strictly
     decreasing)."""
 
-    def __init__(self, inv, modifies=(), types=None, decreases=None, unroll=None, ghost=(), hints=None):
+    def __init__(self, inv, modifies=(), types=None, decreases=None, unroll=None, ghost=(), hints=None, have=None):
         self.inv = inv
         self.hints = hints
+        self.have = have  # have(v) -> facts about the state at the loop head; each is proved, then assumed
         self.modifies = tuple(modifies)
         self.types = types or {}
         self.decreases = decreases
@@ -890,6 +891,10 @@ class Interp:
             enter = self.truth(self.eval(s.test, env, globs))
         else:
             enter = iter_state["next"]()
+        if enter and spec.have is not None:
+            for k, fact in enumerate(spec.have(ns())):
+                c.oblige("%s/loop/%s/have/%d" % (self.tag, key, k), fact, kind="have")
+                c.assume(as_bool_term(fact))
         if enter:
             try:
                 self.exec_block(s.body, env, globs)
@@ -934,6 +939,8 @@ class Interp:
             return SList(t, cur.elem)
         if isinstance(cur, SAny):
             return core.fresh_any(nm)
+        if isinstance(cur, core.SChunks):
+            return core.SChunks(core.fresh_seq(nm, cur.kind), cur.kind)
         raise Unsupported("cannot havoc %s of type %s; declare its type in the loop spec" % (name, type(cur).__name__))
 
     def _set_name(self, env, nm, v):
@@ -1192,6 +1199,8 @@ class Interp:
                 return getattr(o, name)
             from . import models
             return models.slist_method(self, o, name)
+        if isinstance(o, core.SChunks):
+            return getattr(o, name)
         if isinstance(o, SV):
             raise Unsupported("attribute %r of %r" % (name, o))
         if isinstance(o, BoundMethod) and name in ("__func__", "__self__", "__name__"):
@@ -1537,6 +1546,16 @@ class Interp:
                 parts.append(v.value)
             else:
                 x = self.eval(v.value, env, globs)
+                if isinstance(x, SInt) and v.conversion == -1:
+                    from . import models
+                    spec = self.eval(v.format_spec, env, globs) if v.format_spec is not None else ""
+                    d = models.format_int(self, x, spec)
+                    if d is not None:
+                        parts.append(d)
+                        continue
+                if isinstance(x, SSeq) and x.kind == "str" and v.conversion == -1 and v.format_spec is None:
+                    parts.append(x)
+                    continue
                 if core.deep_sym(x) or isinstance(x, (SObj, PyFunc, BoundMethod)):
                     symbolic = True
                     parts.append("<?>")
@@ -1547,8 +1566,12 @@ class Interp:
                     elif v.conversion == ord("s"):
                         x = str(x)
                     parts.append(format(x, spec))
-        s = "".join(parts)
-        return MessageStr(s) if symbolic else s
+        if symbolic:
+            return MessageStr("".join(p if isinstance(p, str) else "<?>" for p in parts))
+        s = ""
+        for p in parts:
+            s = s + p
+        return s
 
     def e_FormattedValue(self, e, env, globs):
         return self.eval(e.value, env, globs)
